@@ -144,6 +144,26 @@ func c08Specs(tier string) []*h.SeqSpec {
 			m.Order = append(m.Order, "s2")
 			return afterOpen(w, before)
 		}})
+		// the same through a source name that the API accepts and the directory store refuses (a reserved element): the
+		// fall-back session is an ordinary one; nothing else may be left behind (no hidden session, no temp file, no slot)
+		ops = append(ops, h.Op{Name: "POST open s2 through a mount from a source name the store refuses (from=x/blobs)", Do: func(w *h.World) []h.Violation {
+			m := sessM(w)
+			if m.S["s2"] != nil {
+				return nil
+			}
+			before := openCount(w)
+			d := dg("sha256", []byte("mount-me"))
+			r := w.Do(h.Req{Method: "POST", Path: "/v2/" + repo + "/blobs/uploads/", Query: "mount=" + url.QueryEscape(d) + "&from=x/blobs"})
+			if r.Status != 202 {
+				return nil // refusing the request is fine as well
+			}
+			p, st := parseLocation(r.H.Get("Location"))
+			id := p[strings.LastIndex(p, "/")+1:]
+			w.Slots["s2"] = id
+			m.S["s2"] = &Sess{Slot: "s2", Repo: repo, ID: id, Path: p, State: st, Open: true, Expect: d}
+			m.Order = append(m.Order, "s2")
+			return afterOpen(w, before)
+		}})
 		// PATCH variants
 		type pv struct {
 			name  string
